@@ -23,7 +23,7 @@ use {
 };
 
 // AdjacencyList::complement on every digraph of order 3 with exactly 1 available CPU(s) equals the single-threaded definition.
-// @verif prop=C17 tier=quick fl=f2 role=complement/t1 t=2400 mem=24
+// @verif prop=C17 tier=quick fl=f2 role=complement/t1 t=2400 mem=24 par=1
 #[cfg_attr(kani, kani::proof)]
 #[cfg_attr(kani, kani::unwind(8))]
 pub fn c17_complement_n3_t1() {
@@ -31,7 +31,7 @@ pub fn c17_complement_n3_t1() {
 }
 
 // AdjacencyList::complement on every digraph of order 3 with exactly 2 available CPU(s) equals the single-threaded definition.
-// @verif prop=C17 tier=quick fl=f2 role=complement/t2 t=2400 mem=24
+// @verif prop=C17 tier=quick fl=f2 role=complement/t2 t=2400 mem=24 par=2
 #[cfg_attr(kani, kani::proof)]
 #[cfg_attr(kani, kani::unwind(8))]
 pub fn c17_complement_n3_t2() {
@@ -39,7 +39,7 @@ pub fn c17_complement_n3_t2() {
 }
 
 // AdjacencyList::complement on every digraph of order 3 with exactly 4 available CPU(s) equals the single-threaded definition.
-// @verif prop=C17 tier=thorough fl=f2 role=complement/t4 t=3600 mem=30
+// @verif prop=C17 tier=thorough fl=f2 role=complement/t4 t=3600 mem=30 par=4
 #[cfg_attr(kani, kani::proof)]
 #[cfg_attr(kani, kani::unwind(8))]
 pub fn c17_complement_n3_t4() {
@@ -47,7 +47,7 @@ pub fn c17_complement_n3_t4() {
 }
 
 // AdjacencyList::complement on every digraph of order 3 with exactly 3 available CPU(s) equals the single-threaded definition.
-// @verif prop=C17 tier=thorough fl=f2 role=complement/t3 t=3600 mem=30
+// @verif prop=C17 tier=thorough fl=f2 role=complement/t3 t=3600 mem=30 par=3
 #[cfg_attr(kani, kani::proof)]
 #[cfg_attr(kani, kani::unwind(8))]
 pub fn c17_complement_n3_t3() {
@@ -55,7 +55,7 @@ pub fn c17_complement_n3_t3() {
 }
 
 // AdjacencyList::complement on every digraph of order 3 with exactly 8 available CPU(s) equals the single-threaded definition.
-// @verif prop=C17 tier=thorough fl=f2 role=complement/t8 t=3600 mem=30
+// @verif prop=C17 tier=thorough fl=f2 role=complement/t8 t=3600 mem=30 par=8
 #[cfg_attr(kani, kani::proof)]
 #[cfg_attr(kani, kani::unwind(10))]
 pub fn c17_complement_n3_t8() {
@@ -63,7 +63,7 @@ pub fn c17_complement_n3_t8() {
 }
 
 // AdjacencyList::degree_sequence (and the other queries) on every digraph of order 3 with exactly 2 CPU(s).
-// @verif prop=C17 tier=quick fl=f2 role=degree-sequence/t2 t=2400 mem=24
+// @verif prop=C17 tier=quick fl=f2 role=degree-sequence/t2 t=2400 mem=24 par=2
 #[cfg_attr(kani, kani::proof)]
 #[cfg_attr(kani, kani::unwind(8))]
 pub fn c17_degree_sequence_n3_t2() {
@@ -71,7 +71,7 @@ pub fn c17_degree_sequence_n3_t2() {
 }
 
 // AdjacencyList::degree_sequence (and the other queries) on every digraph of order 3 with exactly 4 CPU(s).
-// @verif prop=C17 tier=quick fl=f2 role=degree-sequence/t4 t=2400 mem=24
+// @verif prop=C17 tier=quick fl=f2 role=degree-sequence/t4 t=2400 mem=24 par=4
 #[cfg_attr(kani, kani::proof)]
 #[cfg_attr(kani, kani::unwind(8))]
 pub fn c17_degree_sequence_n3_t4() {
@@ -79,7 +79,7 @@ pub fn c17_degree_sequence_n3_t4() {
 }
 
 // AdjacencyList::degree_sequence (and the other queries) on every digraph of order 3 with exactly 1 CPU(s).
-// @verif prop=C17 tier=thorough fl=f2 role=degree-sequence/t1 t=3600 mem=30
+// @verif prop=C17 tier=thorough fl=f2 role=degree-sequence/t1 t=3600 mem=30 par=1
 #[cfg_attr(kani, kani::proof)]
 #[cfg_attr(kani, kani::unwind(8))]
 pub fn c17_degree_sequence_n3_t1() {
@@ -87,7 +87,7 @@ pub fn c17_degree_sequence_n3_t1() {
 }
 
 // AdjacencyList::degree_sequence (and the other queries) on every digraph of order 3 with exactly 3 CPU(s).
-// @verif prop=C17 tier=thorough fl=f2 role=degree-sequence/t3 t=3600 mem=30
+// @verif prop=C17 tier=thorough fl=f2 role=degree-sequence/t3 t=3600 mem=30 par=3
 #[cfg_attr(kani, kani::proof)]
 #[cfg_attr(kani, kani::unwind(8))]
 pub fn c17_degree_sequence_n3_t3() {
@@ -95,7 +95,7 @@ pub fn c17_degree_sequence_n3_t3() {
 }
 
 // AdjacencyList::degree_sequence (and the other queries) on every digraph of order 3 with exactly 8 CPU(s).
-// @verif prop=C17 tier=thorough fl=f2 role=degree-sequence/t8 t=3600 mem=30
+// @verif prop=C17 tier=thorough fl=f2 role=degree-sequence/t8 t=3600 mem=30 par=8
 #[cfg_attr(kani, kani::proof)]
 #[cfg_attr(kani, kani::unwind(10))]
 pub fn c17_degree_sequence_n3_t8() {
@@ -103,7 +103,7 @@ pub fn c17_degree_sequence_n3_t8() {
 }
 
 // AdjacencyList::is_semicomplete (and the other predicates) on every digraph of order 3 with exactly 2 CPU(s).
-// @verif prop=C17 tier=quick fl=f2 role=is-semicomplete/t2 t=2400 mem=24
+// @verif prop=C17 tier=quick fl=f2 role=is-semicomplete/t2 t=2400 mem=24 par=2
 #[cfg_attr(kani, kani::proof)]
 #[cfg_attr(kani, kani::unwind(8))]
 pub fn c17_is_semicomplete_n3_t2() {
@@ -111,7 +111,7 @@ pub fn c17_is_semicomplete_n3_t2() {
 }
 
 // AdjacencyList::is_semicomplete (and the other predicates) on every digraph of order 3 with exactly 4 CPU(s).
-// @verif prop=C17 tier=quick fl=f2 role=is-semicomplete/t4 t=2400 mem=24
+// @verif prop=C17 tier=quick fl=f2 role=is-semicomplete/t4 t=2400 mem=24 par=4
 #[cfg_attr(kani, kani::proof)]
 #[cfg_attr(kani, kani::unwind(8))]
 pub fn c17_is_semicomplete_n3_t4() {
@@ -119,7 +119,7 @@ pub fn c17_is_semicomplete_n3_t4() {
 }
 
 // AdjacencyList::is_semicomplete (and the other predicates) on every digraph of order 3 with exactly 1 CPU(s).
-// @verif prop=C17 tier=thorough fl=f2 role=is-semicomplete/t1 t=3600 mem=30
+// @verif prop=C17 tier=thorough fl=f2 role=is-semicomplete/t1 t=3600 mem=30 par=1
 #[cfg_attr(kani, kani::proof)]
 #[cfg_attr(kani, kani::unwind(8))]
 pub fn c17_is_semicomplete_n3_t1() {
@@ -127,7 +127,7 @@ pub fn c17_is_semicomplete_n3_t1() {
 }
 
 // AdjacencyList::is_semicomplete (and the other predicates) on every digraph of order 3 with exactly 3 CPU(s).
-// @verif prop=C17 tier=thorough fl=f2 role=is-semicomplete/t3 t=3600 mem=30
+// @verif prop=C17 tier=thorough fl=f2 role=is-semicomplete/t3 t=3600 mem=30 par=3
 #[cfg_attr(kani, kani::proof)]
 #[cfg_attr(kani, kani::unwind(8))]
 pub fn c17_is_semicomplete_n3_t3() {
@@ -135,7 +135,7 @@ pub fn c17_is_semicomplete_n3_t3() {
 }
 
 // AdjacencyList::is_semicomplete (and the other predicates) on every digraph of order 3 with exactly 8 CPU(s).
-// @verif prop=C17 tier=thorough fl=f2 role=is-semicomplete/t8 t=3600 mem=30
+// @verif prop=C17 tier=thorough fl=f2 role=is-semicomplete/t8 t=3600 mem=30 par=8
 #[cfg_attr(kani, kani::proof)]
 #[cfg_attr(kani, kani::unwind(10))]
 pub fn c17_is_semicomplete_n3_t8() {
@@ -143,7 +143,7 @@ pub fn c17_is_semicomplete_n3_t8() {
 }
 
 // AdjacencyList::union of every order-2 with every order-3 digraph with exactly 2 CPU(s).
-// @verif prop=C17 tier=thorough fl=f2 role=union-list/t2 t=3600 mem=30
+// @verif prop=C17 tier=thorough fl=f2 role=union-list/t2 t=3600 mem=30 par=2
 #[cfg_attr(kani, kani::proof)]
 #[cfg_attr(kani, kani::unwind(8))]
 pub fn c17_union_list_n2_m3_t2() {
@@ -151,7 +151,7 @@ pub fn c17_union_list_n2_m3_t2() {
 }
 
 // AdjacencyList::union of every order-2 with every order-3 digraph with exactly 4 CPU(s).
-// @verif prop=C17 tier=thorough fl=f2 role=union-list/t4 t=3600 mem=30
+// @verif prop=C17 tier=thorough fl=f2 role=union-list/t4 t=3600 mem=30 par=4
 #[cfg_attr(kani, kani::proof)]
 #[cfg_attr(kani, kani::unwind(8))]
 pub fn c17_union_list_n2_m3_t4() {
@@ -159,7 +159,7 @@ pub fn c17_union_list_n2_m3_t4() {
 }
 
 // AdjacencyList::union of every order-2 with every order-3 digraph with exactly 1 CPU(s).
-// @verif prop=C17 tier=thorough fl=f2 role=union-list/t1 t=3600 mem=30
+// @verif prop=C17 tier=thorough fl=f2 role=union-list/t1 t=3600 mem=30 par=1
 #[cfg_attr(kani, kani::proof)]
 #[cfg_attr(kani, kani::unwind(8))]
 pub fn c17_union_list_n2_m3_t1() {
@@ -167,7 +167,7 @@ pub fn c17_union_list_n2_m3_t1() {
 }
 
 // AdjacencyList::union of every order-2 with every order-3 digraph with exactly 3 CPU(s).
-// @verif prop=C17 tier=thorough fl=f2 role=union-list/t3 t=3600 mem=30
+// @verif prop=C17 tier=thorough fl=f2 role=union-list/t3 t=3600 mem=30 par=3
 #[cfg_attr(kani, kani::proof)]
 #[cfg_attr(kani, kani::unwind(8))]
 pub fn c17_union_list_n2_m3_t3() {
@@ -175,7 +175,7 @@ pub fn c17_union_list_n2_m3_t3() {
 }
 
 // AdjacencyList::union of every order-2 with every order-3 digraph with exactly 8 CPU(s).
-// @verif prop=C17 tier=thorough fl=f2 role=union-list/t8 t=3600 mem=30
+// @verif prop=C17 tier=thorough fl=f2 role=union-list/t8 t=3600 mem=30 par=8
 #[cfg_attr(kani, kani::proof)]
 #[cfg_attr(kani, kani::unwind(10))]
 pub fn c17_union_list_n2_m3_t8() {
@@ -183,7 +183,7 @@ pub fn c17_union_list_n2_m3_t8() {
 }
 
 // AdjacencyMap::union (merge-path partition) of two order-2 digraphs with exactly 2 CPU(s).
-// @verif prop=C17 tier=thorough fl=f2 feat=map4 role=union-map/t2 t=3600 mem=30
+// @verif prop=C17 tier=thorough fl=f2 feat=map4 role=union-map/t2 t=3600 mem=30 par=2
 #[cfg_attr(kani, kani::proof)]
 #[cfg_attr(kani, kani::unwind(8))]
 pub fn c17_union_map_n2_m2_t2() {
@@ -191,7 +191,7 @@ pub fn c17_union_map_n2_m2_t2() {
 }
 
 // AdjacencyMap::union (merge-path partition) of two order-2 digraphs with exactly 3 CPU(s).
-// @verif prop=C17 tier=thorough fl=f2 feat=map4 role=union-map/t3 t=3600 mem=30
+// @verif prop=C17 tier=thorough fl=f2 feat=map4 role=union-map/t3 t=3600 mem=30 par=3
 #[cfg_attr(kani, kani::proof)]
 #[cfg_attr(kani, kani::unwind(8))]
 pub fn c17_union_map_n2_m2_t3() {
@@ -199,7 +199,7 @@ pub fn c17_union_map_n2_m2_t3() {
 }
 
 // AdjacencyMap::union (merge-path partition) of two order-2 digraphs with exactly 1 CPU(s).
-// @verif prop=C17 tier=thorough fl=f2 feat=map4 role=union-map/t1 t=3600 mem=30
+// @verif prop=C17 tier=thorough fl=f2 feat=map4 role=union-map/t1 t=3600 mem=30 par=1
 #[cfg_attr(kani, kani::proof)]
 #[cfg_attr(kani, kani::unwind(8))]
 pub fn c17_union_map_n2_m2_t1() {
@@ -207,7 +207,7 @@ pub fn c17_union_map_n2_m2_t1() {
 }
 
 // AdjacencyMap::union (merge-path partition) of two order-2 digraphs with exactly 4 CPU(s).
-// @verif prop=C17 tier=thorough fl=f2 feat=map4 role=union-map/t4 t=3600 mem=30
+// @verif prop=C17 tier=thorough fl=f2 feat=map4 role=union-map/t4 t=3600 mem=30 par=4
 #[cfg_attr(kani, kani::proof)]
 #[cfg_attr(kani, kani::unwind(8))]
 pub fn c17_union_map_n2_m2_t4() {
@@ -215,7 +215,7 @@ pub fn c17_union_map_n2_m2_t4() {
 }
 
 // AdjacencyMap::union (merge-path partition) of two order-2 digraphs with exactly 8 CPU(s).
-// @verif prop=C17 tier=thorough fl=f2 feat=map4 role=union-map/t8 t=3600 mem=30
+// @verif prop=C17 tier=thorough fl=f2 feat=map4 role=union-map/t8 t=3600 mem=30 par=8
 #[cfg_attr(kani, kani::proof)]
 #[cfg_attr(kani, kani::unwind(10))]
 pub fn c17_union_map_n2_m2_t8() {
@@ -223,7 +223,7 @@ pub fn c17_union_map_n2_m2_t8() {
 }
 
 // AdjacencyList::complete(5) with exactly 1 CPU(s): chunk sizes [5].
-// @verif prop=C17 tier=thorough fl=f2 role=complete/t1 t=3600 mem=30
+// @verif prop=C17 tier=thorough fl=f2 role=complete/t1 t=3600 mem=30 par=1
 #[cfg_attr(kani, kani::proof)]
 #[cfg_attr(kani, kani::unwind(8))]
 pub fn c17_complete_n5_t1() {
@@ -231,7 +231,7 @@ pub fn c17_complete_n5_t1() {
 }
 
 // AdjacencyList::complete(5) with exactly 2 CPU(s): chunk sizes [3].
-// @verif prop=C17 tier=quick fl=f2 role=complete/t2 t=2400 mem=24
+// @verif prop=C17 tier=quick fl=f2 role=complete/t2 t=2400 mem=24 par=2
 #[cfg_attr(kani, kani::proof)]
 #[cfg_attr(kani, kani::unwind(8))]
 pub fn c17_complete_n5_t2() {
@@ -239,7 +239,7 @@ pub fn c17_complete_n5_t2() {
 }
 
 // AdjacencyList::complete(5) with exactly 4 CPU(s): chunk sizes [2].
-// @verif prop=C17 tier=thorough fl=f2 role=complete/t4 t=3600 mem=30
+// @verif prop=C17 tier=thorough fl=f2 role=complete/t4 t=3600 mem=30 par=4
 #[cfg_attr(kani, kani::proof)]
 #[cfg_attr(kani, kani::unwind(8))]
 pub fn c17_complete_n5_t4() {
@@ -247,7 +247,7 @@ pub fn c17_complete_n5_t4() {
 }
 
 // AdjacencyList::complete(5) with exactly 5 CPU(s): chunk sizes [1].
-// @verif prop=C17 tier=thorough fl=f2 role=complete/t5 t=3600 mem=30
+// @verif prop=C17 tier=thorough fl=f2 role=complete/t5 t=3600 mem=30 par=5
 #[cfg_attr(kani, kani::proof)]
 #[cfg_attr(kani, kani::unwind(8))]
 pub fn c17_complete_n5_t5() {
@@ -255,7 +255,7 @@ pub fn c17_complete_n5_t5() {
 }
 
 // AdjacencyList::complete(5) with exactly 8 CPU(s): chunk sizes [1].
-// @verif prop=C17 tier=thorough fl=f2 role=complete/t8 t=3600 mem=30
+// @verif prop=C17 tier=thorough fl=f2 role=complete/t8 t=3600 mem=30 par=8
 #[cfg_attr(kani, kani::proof)]
 #[cfg_attr(kani, kani::unwind(8))]
 pub fn c17_complete_n5_t8() {
@@ -263,7 +263,7 @@ pub fn c17_complete_n5_t8() {
 }
 
 // AdjacencyList::complete(5) with exactly 3 CPU(s): chunk sizes [2].
-// @verif prop=C17 tier=thorough fl=f2 role=complete/t3 t=3600 mem=30
+// @verif prop=C17 tier=thorough fl=f2 role=complete/t3 t=3600 mem=30 par=3
 #[cfg_attr(kani, kani::proof)]
 #[cfg_attr(kani, kani::unwind(8))]
 pub fn c17_complete_n5_t3() {
@@ -271,7 +271,7 @@ pub fn c17_complete_n5_t3() {
 }
 
 // AdjacencyList::complete(5) with exactly 6 CPU(s): chunk sizes [1].
-// @verif prop=C17 tier=thorough fl=f2 role=complete/t6 t=3600 mem=30
+// @verif prop=C17 tier=thorough fl=f2 role=complete/t6 t=3600 mem=30 par=6
 #[cfg_attr(kani, kani::proof)]
 #[cfg_attr(kani, kani::unwind(8))]
 pub fn c17_complete_n5_t6() {
@@ -279,7 +279,7 @@ pub fn c17_complete_n5_t6() {
 }
 
 // AdjacencyList::complete(5) with exactly 16 CPU(s): chunk sizes [1].
-// @verif prop=C17 tier=thorough fl=f2 role=complete/t16 t=3600 mem=30
+// @verif prop=C17 tier=thorough fl=f2 role=complete/t16 t=3600 mem=30 par=16
 #[cfg_attr(kani, kani::proof)]
 #[cfg_attr(kani, kani::unwind(8))]
 pub fn c17_complete_n5_t16() {
@@ -303,7 +303,7 @@ pub fn c17_complement_n2_p4() {
 }
 
 // AdjacencyMap::random_tournament(3, every seed) stays a tournament with exactly 2 CPU(s).
-// @verif prop=C17 tier=quick fl=f2 feat=map4 role=map-tournament/t2 t=2400 mem=24
+// @verif prop=C17 tier=quick fl=f2 feat=map4 role=map-tournament/t2 t=2400 mem=24 par=2
 #[cfg_attr(kani, kani::proof)]
 #[cfg_attr(kani, kani::unwind(10))]
 pub fn c17_map_tournament_n3_t2() {
@@ -311,7 +311,7 @@ pub fn c17_map_tournament_n3_t2() {
 }
 
 // AdjacencyMap::erdos_renyi(3, every p, every seed) stays a simple digraph with exactly 2 CPU(s).
-// @verif prop=C17 tier=thorough fl=f2 feat=map4 role=map-erdos-renyi/t2 t=3600 mem=30
+// @verif prop=C17 tier=thorough fl=f2 feat=map4 role=map-erdos-renyi/t2 t=3600 mem=30 par=2
 #[cfg_attr(kani, kani::proof)]
 #[cfg_attr(kani, kani::unwind(10))]
 pub fn c17_map_erdos_renyi_n3_t2() {
@@ -319,7 +319,7 @@ pub fn c17_map_erdos_renyi_n3_t2() {
 }
 
 // AdjacencyMap::random_tournament(3, every seed) stays a tournament with exactly 4 CPU(s).
-// @verif prop=C17 tier=thorough fl=f2 feat=map4 role=map-tournament/t4 t=3600 mem=30
+// @verif prop=C17 tier=thorough fl=f2 feat=map4 role=map-tournament/t4 t=3600 mem=30 par=4
 #[cfg_attr(kani, kani::proof)]
 #[cfg_attr(kani, kani::unwind(10))]
 pub fn c17_map_tournament_n3_t4() {
@@ -327,7 +327,7 @@ pub fn c17_map_tournament_n3_t4() {
 }
 
 // AdjacencyMap::erdos_renyi(3, every p, every seed) stays a simple digraph with exactly 4 CPU(s).
-// @verif prop=C17 tier=thorough fl=f2 feat=map4 role=map-erdos-renyi/t4 t=3600 mem=30
+// @verif prop=C17 tier=thorough fl=f2 feat=map4 role=map-erdos-renyi/t4 t=3600 mem=30 par=4
 #[cfg_attr(kani, kani::proof)]
 #[cfg_attr(kani, kani::unwind(10))]
 pub fn c17_map_erdos_renyi_n3_t4() {
@@ -335,7 +335,7 @@ pub fn c17_map_erdos_renyi_n3_t4() {
 }
 
 // The seeded AdjacencyMap generators repeat exactly within one configuration (2 CPUs).
-// @verif prop=C17 tier=thorough fl=f2 feat=map4 role=map-deterministic/t2 t=3600 mem=30
+// @verif prop=C17 tier=thorough fl=f2 feat=map4 role=map-deterministic/t2 t=3600 mem=30 par=2
 #[cfg_attr(kani, kani::proof)]
 #[cfg_attr(kani, kani::unwind(10))]
 pub fn c17_map_deterministic_n3_t2() {
